@@ -151,8 +151,8 @@ def families(tier):
             "0 <= n2 <= 2", "0 <= x3 < %d" % NOP, "a3 >= -1", "0 <= x4 <= %d" % NOP, "a4 >= -1", "t >= 0"]
     if not thorough:
         # quick: one request shape (args+kwargs, first call raises), second request settled (t >= 4)
-        pre = base + ["x5 == %d" % NOP, "a5 == 0", "sh == 4", "bad == 0", "n1 == 3", "n2 == 1", "size >= 1", "t >= 4"]
-        parts = parts_product(simple=(0, 1), x3=range(NOP), x4=(0, 1, 3, 5, NOP))
+        pre = base + ["x5 == %d" % NOP, "a5 == 0", "sh == 4", "0 <= bad <= 1", "n1 == 3", "n2 == 1", "size >= 1", "t >= 4"]
+        parts = parts_product(simple=(0, 1), bad=(0, 1), x3=range(NOP), x4=(0, 1, 3, 5, NOP))
     else:
         pre = base + ["x5 == %d" % NOP, "a5 == 0", "sh == 4", "-1 <= bad <= 1", "2 <= n1 <= 3", "n2 == 1"]
         parts = parts_product(simple=(0, 1), n1=(2, 3), bad=(-1, 0, 1), x3=range(NOP), x4=range(NOP + 1))
